@@ -26,3 +26,58 @@ Proof.
   exact (sextract_metas_confined root ms t1 lg1 t2 lg2 r2 (sextract_files_confined umask root es t lg t1 lg1 r1 Hl H1) H2).
 Qed.
 Print Assumptions C07_stream_confined.
+
+(* ---------- the positive half: a consistent archive of plain entries is reproduced exactly.
+   Items: files  n1/../nk  with content and optional Unix mode, directories  n1/../nk/ ; every component non-empty, not
+   "." or "..", free of '/' and NUL (plain).  Mutually consistent (compat, for every ordered pair): a file's path is
+   neither a directory of another entry nor another entry's path.  Extracting such an archive with ZipArchive::extract
+   into an EMPTY target directory succeeds, and afterwards (tree_ok):
+   - every file entry's path holds a regular file with exactly the entry's bytes, and mode = recorded mode & 0o7777
+     when one is recorded;
+   - every directory entry and every proper ancestor of every entry is a directory;
+   - NOTHING ELSE exists below the target: every object there is a non-empty prefix of some entry's path.
+   (What happens outside the target is C07_confined.)  Over the file tree of Spec/Fs.v; Proofs/ExtractTree.v. *)
+From Coq Require Import List.
+From ZipV Require Import Proofs.ExtractTree.
+Import ListNotations.
+Theorem C07_plain_archive_reproduced : forall umask root t0 lg0 items,
+  (forall rel, rel <> [] -> lookup t0 (root ++ rel) = None) ->
+  ForallOrdPairs compat items -> Forall (fun x => plain (path_of x)) items ->
+  exists t' lg', extract umask root (t0, lg0) (map entry_of items) = ((t', lg'), XOk) /\
+    (forall ns c mo, In (IFile ns c mo) items ->
+       exists m, lookup t' (root ++ ns) = Some (NFile c m) /\ (forall md, mo = Some md -> m = N.land md 4095)) /\
+    (forall i k, In i items -> (1 <= k <= length (path_of i))%nat -> (k < length (path_of i))%nat \/ ~ is_file i ->
+       is_dir t' (root ++ firstn k (path_of i))) /\
+    (forall rel, rel <> [] -> lookup t' (root ++ rel) <> None ->
+       exists i k, In i items /\ (1 <= k <= length (path_of i))%nat /\ rel = firstn k (path_of i)).
+Proof.
+  intros umask root t0 lg0 items He Hp Hpl.
+  destruct (extract_plain_archive umask root t0 lg0 items He Hp Hpl) as (t' & lg' & E & [H1 H2 H3]).
+  exists t', lg'. auto.
+Qed.
+Print Assumptions C07_plain_archive_reproduced.
+
+(* the streaming extractor's file phase builds the same tree (contents and structure; it applies the modes in a
+   second phase from the central records, which is not covered by this theorem) *)
+Theorem C07_stream_files_reproduced : forall umask root t0 lg0 items,
+  (forall rel, rel <> [] -> lookup t0 (root ++ rel) = None) ->
+  ForallOrdPairs compat items -> Forall (fun x => plain (path_of x)) items ->
+  exists t' lg', sextract_files umask root (t0, lg0) (map entry_of items) = ((t', lg'), XOk) /\ tree_ok root t' (map strip_mode items).
+Proof. exact sextract_plain_files. Qed.
+Print Assumptions C07_stream_files_reproduced.
+
+(* the hypotheses are met: file "a/b" (mode 0o640) and directory "d/" into an empty target *)
+Example C07_plain_nonvacuous :
+  let items := [IFile [[Byte.x61]; [Byte.x62]] [Byte.x68; Byte.x69] (Some 416); IDir [[Byte.x64]] None] in
+  ForallOrdPairs compat items /\ Forall (fun x => plain (path_of x)) items /\
+  (forall rel, rel <> [] -> lookup [([[Byte.x72]], NDir 493)] ([[Byte.x72]] ++ rel) = None) /\
+  exists t' lg', extract 18 [[Byte.x72]] ([([[Byte.x72]], NDir 493)], []) (map entry_of items) = ((t', lg'), XOk) /\
+                 lookup t' [[Byte.x72]; [Byte.x61]; [Byte.x62]] = Some (NFile [Byte.x68; Byte.x69] 416).
+Proof.
+  cbv zeta. split; [|split; [|split]].
+  - constructor; [|constructor; [constructor|constructor]]. constructor; [|constructor].
+    split; cbn [is_file path_of]; intros _ [k H]; destruct k as [|[|k]]; cbn in H; discriminate H.
+  - repeat constructor; try discriminate; reflexivity.
+  - intros rel Hrel. destruct rel; [contradiction|]. reflexivity.
+  - eexists. eexists. split; vm_compute; reflexivity.
+Qed.
